@@ -594,6 +594,82 @@ func divergedSession(run *evid.Run, idx int) {
 	}
 }
 
+// knownToOneAndFailing: a repository only one member knows, and that member's listing of it breaks off
+// with an error after some items. The other member's "name unknown" contributes nothing to the union;
+// the failure of the member that has the items stays a failure: the unified listing ends with an error,
+// never as a clean, shorter list.
+func knownToOneAndFailing(run *evid.Run, idx int) {
+	tags := []string{"a", "b", "c", "d"}
+	boom := fmt.Errorf("member listing broke off (%d)", idx)
+	after := idx / 4 % 4 // items delivered before the failure
+	knowing := &ociregistry.Funcs{
+		Tags_: func(ctx context.Context, repo, startAfter string) ociregistry.Seq[string] {
+			return func(yield func(string, error) bool) {
+				for i, t := range tags {
+					if i == after {
+						break
+					}
+					if !yield(t, nil) {
+						return
+					}
+				}
+				yield("", boom)
+			}
+		},
+		Referrers_: func(ctx context.Context, repo string, d ociregistry.Digest, at string) ociregistry.Seq[ociregistry.Descriptor] {
+			return func(yield func(ociregistry.Descriptor, error) bool) {
+				for i := 0; i < after; i++ {
+					if !yield(ociregistry.Descriptor{MediaType: model.MTImage, Digest: ociregistry.Digest(model.Digest([]byte{byte(i)})), Size: 1}, nil) {
+						return
+					}
+				}
+				yield(ociregistry.Descriptor{}, boom)
+			}
+		},
+	}
+	var other ociregistry.Interface = ocimem.New() // has no such repository: NAME_UNKNOWN
+	m0, m1 := ociregistry.Interface(knowing), other
+	if idx%2 == 1 {
+		m0, m1 = m1, m0
+	}
+	u := ociunify.New(m0, m1, &ociunify.Options{ReadPolicy: ociunify.ReadPolicy(idx / 2 % 2)})
+	for _, method := range []string{"Tags", "Referrers"} {
+		var items []string
+		var errs []error
+		run.Eval(1)
+		if !run.Case("known-to-one/total", map[string]any{"method": method}, func() {
+			switch method {
+			case "Tags":
+				u.Tags(bg, "only/here", "")(func(t string, err error) bool {
+					if err != nil {
+						errs = append(errs, err)
+						return false
+					}
+					items = append(items, t)
+					return true
+				})
+			case "Referrers":
+				u.Referrers(bg, "only/here", ociregistry.Digest(model.Digest([]byte("subject"))), "")(func(d ociregistry.Descriptor, err error) bool {
+					if err != nil {
+						errs = append(errs, err)
+						return false
+					}
+					items = append(items, string(d.Digest))
+					return true
+				})
+			}
+		}) {
+			continue
+		}
+		run.Count("listings_known_to_one_failing_member", 1)
+		run.Distinct(fmt.Sprintf("known-to-one/%s/after=%d/knowing=m%d", method, after, idx%2))
+		if len(errs) == 0 {
+			run.Violation("union/listing-failure-lost/"+method, fmt.Sprintf("%s of a repository that one member does not know and whose other member's listing broke off after %d item(s): the unified listing delivered %q and ended without an error", method, after, items),
+				map[string]any{"method": method, "items_before_failure": after, "delivered": items, "knowing_member": idx % 2, "policy": idx / 2 % 2})
+		}
+	}
+}
+
 // unequalWrites: writes through the unifier over members that are NOT equal (repositories, tags and
 // content known to one member only). The first half of the write rule does not depend on the members
 // being equal: the write reaches both members, and success is reported only if both calls succeeded.
@@ -865,6 +941,10 @@ func main() {
 		divergedSession(run, i)
 	}
 	run.FloorCounter("diverged_session_resumes", 30)
+	for i := 0; i < 32; i++ {
+		knownToOneAndFailing(run, i)
+	}
+	run.FloorCounter("listings_known_to_one_failing_member", 60)
 	nw := run.N(400, 8000)
 	for i := 0; i < nw; i++ {
 		writeHistory(run, i)
